@@ -177,6 +177,7 @@ class TObj:
         self.grad = None
         self.version = 0  # torch's in-place modification counter (_version): bumped by in-place writes, not by `.data = ...`
         self.dtype_src = None  # object whose dtype this one shares (clone / index / detach)
+        self.fw = None  # float width when known: 64 / 32 (None: not tracked); follows dtype_src
 
     def dtype_root(self):
         o, seen = self, set()
@@ -184,6 +185,15 @@ class TObj:
             seen.add(o.id)
             o = o.dtype_src
         return o
+
+    def float_width(self):
+        o, seen = self, set()
+        while o is not None and o.id not in seen:
+            if o.fw is not None:
+                return o.fw
+            seen.add(o.id)
+            o = o.dtype_src
+        return None
 
     def roots(self):
         out = {self}
